@@ -998,9 +998,6 @@ theorem attemptStep_conn (P : SProto Q) (hP : Laws P.toProto) (cls : Bytes → E
        have hdd : FromConn P s.conn.idx _ := hd _ rfl
        have hb := hb s1 es1
        have hp := pendLoop_conn P hP cls lim (maxNT lim tmo) s1 es1 1 0
-       have hfin : ∀ d0, (∀ d s2 es2, Step.fin (Out.reply d0) s1 es1 = .fin (.reply d) s2 es2 → Same s s2 ∧ FromConn P s.conn.idx d) ∧
-           (∀ s2 es2 l, Step.fin (Out.reply d0) s1 es1 = .next s2 es2 l → Same s s2 ∨ (l = .missing true ∧ retry = true ∧ Renewed P s s2)) ∧
-           (∀ s2 es2, Step.fin (Out.reply d0) s1 es1 = .next s2 es2 (.missing false) → Same s s2) → True := fun _ _ => trivial
        split
        · split
          · refine ⟨(by intro d s2 es2 h; cases h), ?_, ?_⟩
